@@ -124,6 +124,14 @@ func (cc *concurrentCache) Set(ctx context.Context, registry string, scheme Sche
 	}
 
 	// cache token
+	cc.store(registry, scheme, key, token)
+
+	return token, nil
+}
+
+// store caches the token for the given scheme with the given key for the given
+// registry.
+func (cc *concurrentCache) store(registry string, scheme Scheme, key, token string) {
 	newEntry := &cacheEntry{
 		scheme: scheme,
 	}
@@ -136,8 +144,6 @@ func (cc *concurrentCache) Set(ctx context.Context, registry string, scheme Sche
 		cc.cache.Store(registry, entry)
 	}
 	entry.tokens.Store(key, token)
-
-	return token, nil
 }
 
 // noCache is a cache implementation that does not do cache at all.
@@ -170,6 +176,17 @@ func (c *hostCache) GetToken(ctx context.Context, registry string, scheme Scheme
 
 // Set implements Cache.
 func (c *hostCache) Set(ctx context.Context, registry string, scheme Scheme, key string, fetch func(context.Context) (string, error)) (string, error) {
+	if cc, ok := c.Cache.(*concurrentCache); ok {
+		// Do not join the in-flight fetches of the underlying cache: they are
+		// keyed by scopes, and the one with the empty key belongs to callers
+		// asking for a token without scopes, not to this host-wide copy.
+		token, err := fetch(ctx)
+		if err != nil {
+			return "", err
+		}
+		cc.store(registry, scheme, "", token)
+		return token, nil
+	}
 	return c.Cache.Set(ctx, registry, scheme, "", fetch)
 }
 
